@@ -1090,6 +1090,35 @@ func (e *Enc) exitEdge(fr *Frame, from, to *ssa.BasicBlock, guard T, st *State) 
 	if spec == nil || !spec.Body {
 		return
 	}
+	// `body exit` clauses are about leaving the loop by break or by its condition; an edge to a
+	// block that only returns (or panics) is the function returning from inside the loop
+	// when the loop head has its own exit (a loop condition), break statements target that same
+	// block: any other exit target is a return/goto path
+	if _, isIf := li.header.Instrs[len(li.header.Instrs)-1].(*ssa.If); isIf {
+		var natural *ssa.BasicBlock
+		for _, s := range li.header.Succs {
+			if !li.blocks[s] {
+				natural = s
+			}
+		}
+		if natural != nil && to != natural {
+			return
+		}
+	}
+	tb := to
+	for k := 0; k < 4; k++ {
+		last := tb.Instrs[len(tb.Instrs)-1]
+		switch last.(type) {
+		case *ssa.Return, *ssa.Panic:
+			return
+		}
+		if j, ok := last.(*ssa.Jump); ok && len(tb.Succs) == 1 {
+			_ = j
+			tb = tb.Succs[0]
+			continue
+		}
+		break
+	}
 	sc := e.scopeAt(fr, from, len(from.Instrs)-1, st)
 	sc.old = fr.entrySt
 	sc.oldHdr = li.header
